@@ -437,7 +437,13 @@ theorem driver_curve_constants :
     bls12381G1.p = Gen.fpModulus ∧ bls12381G1.r = Gen.frModulus ∧
     onCurve bls12381G1 bls12381G1.gx bls12381G1.gy = true ∧
     (bls12381G1.mulGen bls12381G1.r).z = 0 ∧ (bls12381G1.mulGen 1).z ≠ 0 ∧
-    onCurve bn256G1 bn256G1.gx bn256G1.gy = true ∧ (bn256G1.mulGen bn256G1.r).z = 0 := by
+    onCurve bn256G1 bn256G1.gx bn256G1.gy = true ∧ (bn256G1.mulGen bn256G1.r).z = 0 ∧
+    -- the table-based multiplication of the driver agrees with double-and-add on probes
+    toAffine bls12381G1.p (bls12381G1.mulGenTable (doublings bls12381G1.p 256 bls12381G1.gen) (bls12381G1.r - 1))
+      = some (bls12381G1.gx, bls12381G1.p - bls12381G1.gy) ∧
+    toAffine bls12381G1.p (bls12381G1.mulGenTable (doublings bls12381G1.p 256 bls12381G1.gen) 0xdeadbeefcafe)
+      = toAffine bls12381G1.p (bls12381G1.mulGen 0xdeadbeefcafe) ∧
+    invEuclid 7 bls12381G1.p * 7 % bls12381G1.p = 1 := by
   decide +kernel
 
 end MidnightZK.C12
